@@ -1,6 +1,21 @@
 (* C10 — Unmarshal is total: a result or a classified error, never a panic.
    Statements only; proofs in Proofs/C10Proofs.v. *)
-From Errdef Require Import Base.Str Base.Outcome Model.Core Model.Convert Model.Unmarshal Check.UM Check.C10 Proofs.C10Proofs.
+From Errdef Require Import Base.Str Base.Outcome Model.Core Model.Convert Model.Unmarshal Check.UM Check.C10 Proofs.C10Proofs
+  Model.UnmarshalGen Proofs.UnmarshalGenProofs.
+
+(* ---- the transcription still describes the source ------------------------------------- *)
+(* Model/Unmarshal.v transcribes Unmarshaler.Unmarshal / unmarshal / unmarshalCause statement group by statement
+   group.  On every run srcgen alpha-renames the three bodies (receiver r, parameters and locals v0, v1, ...) and
+   checks that every group the model was written from is there - nil input, kind resolved first, fields visited in
+   name order, the redaction placeholder kept as an unknown placeholder and nothing else, definition keys then
+   custom keys of the field's name with "a conversion error aborts, the first accepting key binds", strict mode's
+   ErrUnknownField, lenient mode keeping the decoded value, causes in order; for a cause: errdef first, only
+   ErrInternal propagates, the two placeholder fallbacks, nested causes in order, a registered definition named by
+   the message then a registered sentinel when there are no nested causes, else an UnknownCauseError - in this
+   order and with nothing else between them (Gen/UnmarshalSrc.v lists them one by one). *)
+Theorem C10_unmarshal_source_shape_recognised : unmarshal_source_ok = true.
+Proof. exact unmarshal_source_shape. Qed.
+Print Assumptions C10_unmarshal_source_shape_recognised.
 
 (* binding a decoded value to a typed key never panics, for every field type and
    every Go value a decoder may hand over (as of the fix commit for F5) *)
